@@ -222,6 +222,8 @@ def _fuzz_stage(res, tier, seed, scratch, secs, bins):
     # replay files of fuzz-stage violations name the input itself (the blobs directory does not outlive the run)
     for sig, w in res.violations.items():
         d = w.get("detail") or {}
+        if isinstance(d, dict) and "mutation" not in d and isinstance(d.get("d"), dict):
+            d = d["d"]                      # abort-class violations carry the mutant one level down
         m = d.get("mutation") if isinstance(d, dict) else None
         if isinstance(m, dict) and m.get("kind") == "blob" and isinstance(w.get("replay"), dict):
             r = dict(w["replay"])
